@@ -309,6 +309,44 @@ def exactness_check(pid: str, part: str) -> int:
                                       "rendered_tree": m_tree[max(0, k - 200):k + 300],
                                       "detail": "Tree/Render.v (the function Lemma A / Lemma B and the script theorems are stated about) no longer lays the statement out like the parser"})
 
+    # ---- T3-render-expr: Tree/RenderExpr.v lays expression items (functions, arithmetic, CASE, CAST, window; nested) out like
+    # the parser does - what connects c02_expression_item_sources / c02_exact_on_single_select_with_expressions_partial to the code
+    if part == "columns":
+        atoms = [astgen.col(None, "cx"), astgen.col("t", "cy"), astgen.LIT]
+        es = list(atoms)
+        for a in atoms:
+            es.append(astgen.cast(a))
+            for b in atoms:
+                es += [astgen.fun(a, b), astgen.bin_(a, b)]
+        for _ in range(10):
+            es += [astgen.case(*[r.choice(atoms) for _ in range(3)]), astgen.win(*[r.choice(atoms) for _ in range(3)])]
+        d1 = list(es)
+        for _ in range(40 if quick else 300):
+            a, b, c = r.choice(d1), r.choice(d1), r.choice(d1)
+            es.append(r.choice([astgen.fun(a, b), astgen.bin_(a, b), astgen.cast(a), astgen.case(a, b, c), astgen.win(a, b, c)]))
+        refs = [(None, "cx"), ("t", "cy"), (None, "cz"), ("p", "ck")]
+        for _ in range(60 if quick else 900):
+            es.append(astgen.gen_expr(r, refs, 3))
+        xcases = [(e, al) for e in es for al in ("k", None)]
+        xopts = astgen.Opts(kw_case="lower", trailing="")
+        xsqls = [astgen.to_sql(("query", astgen.select([astgen.iexpr(e, al)], [astgen.rtable(None, "t")])), xopts) for e, al in xcases]
+        xrend = coq_eval("From SV Require Import Tree.RenderExpr.\nOpen Scope string_scope.",
+                         ["show_render_item %s" % astgen.g_item(astgen.iexpr(e, al)) for e, al in xcases], shard=100)
+        dist["render_expr_items_checked"] = 0
+        for (e, al), sql, m in zip(xcases, xsqls, xrend):
+            ck.count()
+            dist["render_expr_items_checked"] += 1
+            try:
+                st0 = an._list_specific_statement_segment(sql)[0]
+                pt = show(next(iter(st0.recursive_crawl("select_clause_element"))))
+            except Exception as ex:      # noqa
+                pt = "ERR:" + type(ex).__name__
+            if pt != m:
+                k = next((j for j in range(min(len(pt), len(m))) if pt[j] != m[j]), 0)
+                disagreements.append({"suite": "T3-render-expr", "sql": sql, "parser_tree": pt[max(0, k - 200):k + 300],
+                                      "rendered_tree": m[max(0, k - 200):k + 300],
+                                      "detail": "Tree/RenderExpr.v (the function the expression-item theorems of C02 are stated about) no longer lays the item out like the parser"})
+
     # ---- corpus: test-suite SQL, tie only (no specification for arbitrary SQL) -------------------
     recs = [x for x in corpus.load() if x["dialect"] != "non-validating" and (not quick or not x.get("origin", "").startswith("tpcds"))]
     for x in run(recs):
